@@ -230,6 +230,7 @@ OPTION_VECTORS = [
     ["--layer", "wm.L1"], ["--layer", "wm.L1", "--layer", "!L2"], ["-u", "--layer", "wm.L1"],
     ["-f", "--layer", "wm"], ["-f", "--layer", "UnitTests"], ["--layer", "!wm"], ["--layer", "UnitTests"],
     ["-u", "-f", "--layer", "L2"], ["--layer", "L1", "--layer", "L1"], ["-a", "0"], ["--all", "--only-level", "1"],
+    ["--all", "-a", "1"], ["-a", "1", "--all"], ["-a", "2", "--all", "-a", "3"],
     ["-f", "--layer", "."], ["-f", "--layer", "!wm"], ["-u", "--layer", "."], ["-u", "--layer", "UnitTests"],
     ["--layer", "wm.L1", "--layer", "!L1"], ["--layer", "wm.L2", "--layer", "!wm"], ["--layer", "wm.L1", "--layer", "wm.L2", "--layer", "!L2"],
     ["--layer", "wm.Store", "--layer", "!Store"], ["--layer", "^wm.L1$"], ["--layer", "wm.L1$", "--layer", "!^wm"],
@@ -364,6 +365,11 @@ def run_layers(ctx):
         case = {"args": args, "model": ans, "real": {"at_level": o.at_level, "unit": bool(o.unit),
                                                      "non_unit": bool(o.non_unit), "layer": list(o.layer or [])}}
         ctx.count(("normalize", tuple(args)))
+        # ---- monitor: --all makes every level eligible wherever it stands among the options
+        if "--all" in args and o.only_level is None and not (o.at_level <= 0 or o.at_level >= MAXSIZE):
+            ctx.violation("options %r leave at_level = %r: --all does not select every level" % (args, o.at_level), case,
+                          signature="all-not-all")
+            continue
         if "error" in ans:
             ctx.drift("suites.normalize", "driver error %s" % ans["error"], case)
             continue
